@@ -137,6 +137,11 @@ Inv_C02 == /\ ~bad
            /\ \A w \in WorldIds : live[w] =>
                  \A id \in issued[w] : (Resolve(ws[w], id) # NoLoc) <=> (id \in DOMAIN abs[w])
 Inv_C06 == \A w \in WorldIds : live[w] => SerDeAccepts(ws[w])
+(* equality is symmetric and implies the same reference map (C16) *)
+Inv_C16 == \A a, b \in WorldIds : (live[a] /\ live[b]) =>
+              /\ StoreEq(ws[a], ws[b]) = StoreEq(ws[b], ws[a])
+              /\ StoreEq(ws[a], ws[b]) => RefMap(ws[a]) = RefMap(ws[b])
+              /\ StoreEq(ws[a], ws[a])
 (* a copy represents the same map as its source at the moment it is made (C10, C06) is part of
    Inv_C01 because Copy sets abs[dst] = abs[src] *)
 =============================================================================
